@@ -127,12 +127,82 @@ func permutedTokenCompExtras(t *rapid.T, m *MClaims) []byte {
 func isBeyondBuilders(m *MClaims) bool { return !m.IsCanned() }
 
 func TestC10_WireFormat(t *testing.T) {
-	st := NewStats("C10", "TestC10_WireFormat", "rapid: valid claims-sets of both profiles built (a) through NewClaims+setters (optionally on an object on which every claim had already been set to another valid value of possibly different length), (b) as struct literals, (c) by decoding independently encoded tokens with permuted key order, extra unknown keys at top level and inside component maps (incl. the P1 no-measurements form), optionally followed by an in-place update of one decoded component through the object the getter returns, (d) by decoding JSON written by the harness (absent optional claims optionally spelt as null members, unknown members, 64-bit flag values, rotated member order), (e) through setters followed by REFUSED setter calls (invalid values, component lists with a malformed later entry), (g) as instances of the seven extension styles (incl. the profile-1 no-measurements form), (f) through setters with the SAME component object listed at several positions (in one call or one by one through the container's Add); the bytes of ValidateAndEncodeClaimsToCBOR are parsed by the independent reader and compared key by key with the model's wire map (definite lengths, no duplicates/tags/trailing bytes, exact key set, exact values, bare-bstr nonce, never list+flag). Non-trivial = not the canned builder shape; distinct = class vector + route")
-	st.Require = []string{"route=setters", "route=literal", "route=decoded", "route=decoded+touched", "route=setters-twice", "route=json-decoded", "route=shared-component", "route=setters+refused", "route=extension", "extension-nomeas", "P1", "P2", "nomeas"}
+	st := NewStats("C10", "TestC10_WireFormat", "rapid: valid claims-sets of both profiles built (a) through NewClaims+setters (optionally on an object on which every claim had already been set to another valid value of possibly different length), (b) as struct literals, (c) by decoding independently encoded tokens with permuted key order, extra unknown keys at top level and inside component maps (incl. the P1 no-measurements form), optionally followed by an in-place update of one decoded component through the object the getter returns, (d) by decoding JSON written by the harness (absent optional claims optionally spelt as null members, unknown members, 64-bit flag values, rotated member order), (e) through setters followed by REFUSED setter calls (invalid values, component lists with a malformed later entry), (g) as instances of the seven extension styles (incl. the profile-1 no-measurements form), (h) for ANY claims-set (valid or not): whatever the validating encoder emits satisfies the structural invariants; (i) components of another ISwComponent implementation, if the setter takes them; (f) through setters with the SAME component object listed at several positions (in one call or one by one through the container's Add); the bytes of ValidateAndEncodeClaimsToCBOR are parsed by the independent reader and compared key by key with the model's wire map (definite lengths, no duplicates/tags/trailing bytes, exact key set, exact values, bare-bstr nonce, never list+flag). Non-trivial = not the canned builder shape; distinct = class vector + route")
+	st.Require = []string{"route=setters", "route=literal", "route=decoded", "route=decoded+touched", "route=setters-twice", "route=json-decoded", "route=shared-component", "route=setters+refused", "route=extension", "extension-nomeas", "route=any-literal", "any-refused", "P1", "P2", "nomeas"}
 	defer st.Flush(t)
 	rapid.Check(t, func(t *rapid.T) {
 		p := drawProf(t)
-		route := rapid.SampledFrom([]string{"setters", "literal", "decoded", "setters", "decoded", "json-decoded", "shared-component", "extension"}).Draw(t, "route")
+		route := rapid.SampledFrom([]string{"setters", "literal", "decoded", "setters", "decoded", "json-decoded", "shared-component", "extension", "foreign-component", "any-literal"}).Draw(t, "route")
+		if route == "any-literal" {
+			// ANY claims-set (valid or not, as struct literal or decoded):
+			// whenever the validating encoder emits bytes at all, they are a
+			// structurally conforming map of the profile
+			m := GenAny(t, p)
+			if p == P1 && rapid.IntRange(0, 3).Draw(t, "flag+list") == 0 {
+				// the no-measurements flag next to a list, some of whose
+				// entries are malformed
+				m = GenValid(t, P1, false)
+				m.NoMeas = u64p(rapid.SampledFrom([]uint64{1, 1, 0, 5}).Draw(t, "flag"))
+				m.Comps, m.CompsNil = nil, false
+				for i := rapid.IntRange(1, 3).Draw(t, "fl.n"); i > 0; i-- {
+					m.Comps = append(m.Comps, drawComp(t, genBool.Draw(t, "fl.valid"), "fl"))
+				}
+			}
+			var c psatoken.IClaims
+			if genBool.Draw(t, "decoded") {
+				var derr error
+				if c, derr = psatoken.DecodeClaimsFromCBOR(permutedToken(t, m)); derr != nil {
+					st.Case("", "any-undecodable")
+					return
+				}
+			} else if lit, ok := m.BuildLiteral(); ok {
+				c = lit
+			} else {
+				st.Case("", "unrepresentable")
+				return
+			}
+			out, err := psatoken.ValidateAndEncodeClaimsToCBOR(c)
+			if err != nil {
+				st.Case("any|refused|"+m.ClassVector(), "route=any-literal", "any-refused", p.String())
+				return
+			}
+			if msg := c10Structural(out, p); msg != "" {
+				t.Fatalf("C10 violated (whatever is emitted): %s\n emitted: %x\n [%s]", msg, out, m.ClassVector())
+			}
+			st.Case("any|emitted|"+m.ClassVector(), "route=any-literal", p.String())
+			return
+		}
+		if route == "foreign-component" {
+			// components of ANOTHER ISwComponent implementation handed to the
+			// setter: refused, or stored with exactly the fields that are set
+			m := GenValid(t, p, true)
+			c, err := m.BuildSetters()
+			if err != nil {
+				t.Fatalf("VERIF-INFRA: %v", err)
+			}
+			var mc []*MComp
+			var list []psatoken.ISwComponent
+			for i := rapid.IntRange(1, 3).Draw(t, "foreign.n"); i > 0; i-- {
+				x := drawComp(t, true, "foreign")
+				mc = append(mc, x)
+				list = append(list, &foreignComp{SwComponent: *libComp(x)})
+			}
+			if serr := c.SetSoftwareComponents(list); serr != nil {
+				st.Case("", "foreign-refused")
+				return
+			}
+			m.Comps, m.CompsNil, m.NoMeas = mc, false, nil
+			out, err := psatoken.ValidateAndEncodeClaimsToCBOR(c)
+			if err != nil {
+				st.Case("", "foreign-not-encodable")
+				return
+			}
+			if msg := c10CheckWire(out, m); msg != "" {
+				t.Fatalf("C10 violated (foreign components accepted by the setter): %s\n emitted: %x\n [%s]", msg, out, m.ClassVector())
+			}
+			st.Case("foreign|"+m.ClassVector(), "route=foreign-component", p.String())
+			return
+		}
 		if route == "extension" {
 			// an instance of one of the extension styles (own codec through
 			// the embedding-aware helpers, or inherited): the emitted map is
@@ -368,6 +438,62 @@ func TestC10_WireFormat(t *testing.T) {
 			st.Sample(map[string]string{"route": route, "claims": m.ClassVector(), "emitted": hexs(out)})
 		}
 	})
+}
+
+// c10Structural: the invariants every emitted claims map of profile p has,
+// whatever the claims-set: one definite map, integer keys of the profile only,
+// no duplicates, profile 1 never both the list and the flag, components are
+// maps over keys 1,2,4,5,6 with byte-string 2 and 5, no null anywhere.
+func c10Structural(out []byte, p Prof) string {
+	n, fl, err := icbor.Read(out)
+	if err != nil || n.Kind != icbor.KMap || fl.HasIndef || fl.HasDupKeys || fl.HasTag {
+		return fmt.Sprintf("not one definite, untagged map without duplicate keys (%v)", err)
+	}
+	known := map[int64]bool{}
+	for c := Claim(0); c < nClaims; c++ {
+		known[wireKey(p, c)] = true
+	}
+	if p == P1 {
+		known[-75007] = true
+	}
+	has := map[int64]*icbor.Node{}
+	for _, pr := range n.Pairs {
+		k, ok := pr[0].Int()
+		if !ok || !known[k] {
+			return "key " + icbor.Diag(pr[0]) + " is not a claim of the profile"
+		}
+		if pr[1].Kind == icbor.KSimple {
+			return fmt.Sprintf("key %d carries a simple value (%s): absent claims are omitted", k, icbor.Diag(pr[1]))
+		}
+		has[k] = pr[1]
+	}
+	if p == P1 && has[-75006] != nil && has[-75007] != nil {
+		return "both the component list (-75006) and the no-measurements flag (-75007) are emitted"
+	}
+	if l := has[wireKey(p, CSwComps)]; l != nil {
+		if l.Kind != icbor.KArray {
+			return "the component list is not an array"
+		}
+		for i, cm := range l.Items {
+			if cm.Kind != icbor.KMap {
+				return fmt.Sprintf("component %d is not a map", i)
+			}
+			got := map[int64]*icbor.Node{}
+			for _, pr := range cm.Pairs {
+				k, _ := pr[0].Int()
+				if k != 1 && k != 2 && k != 4 && k != 5 && k != 6 {
+					return fmt.Sprintf("component %d has key %s", i, icbor.Diag(pr[0]))
+				}
+				got[k] = pr[1]
+			}
+			for _, k := range []int64{2, 5} {
+				if got[k] == nil || got[k].Kind != icbor.KBytes {
+					return fmt.Sprintf("component %d: key %d is absent or not a byte string", i, k)
+				}
+			}
+		}
+	}
+	return ""
 }
 
 // ---- C09 ----
